@@ -8,6 +8,7 @@ import (
 	"bytes"
 	"fmt"
 	"github.com/gardenbed/emerge/internal/ebnf/parser/spec"
+	"io"
 	"os"
 	"os/exec"
 	"path/filepath"
@@ -87,6 +88,11 @@ func c17Items(seed uint64) []c17Item {
 		c17Item{Kind: "spec", Text: "grammar p1;\nNUM = /[0-9]+/\n@left \"*\" \"/\"\n@left \"+\" \"-\"\nstart = e;\ne = e \"+\" e | e \"-\" e | e \"*\" e | e \"/\" e | NUM;\n"},
 		c17Item{Kind: "spec", Text: "grammar p2;\nNUM = /[0-9]+/\n@right \"+\" \"-\"\n@right \"*\" \"/\"\n@none \"<\"\nstart = e;\ne = e \"+\" e | e \"-\" e | e \"*\" e | e \"/\" e | e \"<\" e | NUM;\n"},
 		c17Item{Kind: "spec", Text: "grammar p3;\nID = /[a-z]+/\n@none \"=\"\n@right <e = \"!\" e>\n@left \"&\"\nstart = e;\ne = e \"=\" e | e \"&\" e | \"!\" e | ID;\n"})
+	// definition conflicts (reported by Spec.DFA): the same report every time, also for another text with the same header
+	out = append(out,
+		c17Item{Kind: "spec", Text: "grammar lang;\nAA = /ab?/\nBB = /a|ab|c/\nstart = AA BB;\n"},
+		c17Item{Kind: "spec", Text: "grammar lang;\nAA = /ab?/\nBB = /a|ab|c/\nstart = BB AA | AA;\n"},
+		c17Item{Kind: "spec", Text: "grammar lang2;\nNUM = /[0-9]+/\nINT = /\\d+/\nstart = NUM INT;\n"})
 	// specifications whose source fails part-way (the text read so far must not leak into the next run)
 	for _, fa := range []int{1, 9, 14, 30, 45} {
 		out = append(out, c17Item{Kind: "faulty", Text: "grammar leak; // start = \"leaked\" ; LEAK = \"l\" ;\nstart = \"x\" ;\n", FailAt: fa})
@@ -182,6 +188,39 @@ func c17RenderSpec(s *spec.Spec) string {
 		return fmt.Sprintf("PANIC %v", pv)
 	}
 	return b.String()
+}
+
+// nestingReader delivers a specification and, at its first Read, lets another item be processed completely: the two
+// runs overlap in time on ONE goroutine, deterministically (no scheduler, no race detector involved).
+type nestingReader struct {
+	inner io.Reader
+	other c17Item
+	done  bool
+}
+
+func (n *nestingReader) Read(p []byte) (int, error) {
+	if !n.done {
+		n.done = true
+		_ = c17Process(n.other)
+	}
+	return n.inner.Read(p)
+}
+
+// c17ProcessNested renders a specification item whose parse has another item's processing nested inside it.
+func c17ProcessNested(a, b c17Item) string {
+	var out string
+	pv, _ := safely(func() {
+		sp, err := spec.Parse(fileName, &nestingReader{inner: strings.NewReader(a.Text), other: b})
+		if err != nil {
+			out = "ERROR " + err.Error() + "\n"
+			return
+		}
+		out = c17RenderSpec(sp)
+	})
+	if pv != nil {
+		return fmt.Sprintf("PANIC %v", pv)
+	}
+	return out
 }
 
 // c17One: child process: process exactly one item (index) and print the rendering.
@@ -378,6 +417,30 @@ func runC17(c *ctx) {
 		}
 	}
 	check("invalid-then-valid", alt)
+	// overlapping runs on one goroutine: item B is processed from inside the reader of item A
+	{
+		nested := 0
+		for ai, a := range items {
+			if a.Kind != "spec" || strings.HasPrefix(base[ai], "ERROR") || strings.Contains(base[ai], "PANIC") {
+				continue
+			}
+			for bi, b := range items {
+				if b.Kind != "spec" || (c.quick() && (ai+bi)%4 != 0) {
+					continue
+				}
+				c.eval()
+				got := c17ProcessNested(a, b)
+				nested++
+				c.nontrivial(fmt.Sprintf("nested/%d/%d", ai, bi))
+				if got != base[ai] {
+					c.violate(violation{Case: "nested-run", Input: map[string]any{"item": a.Text, "processed_while_this_item_was_being_read": b.Text},
+						Observed: firstDiffLine(got, base[ai]), Expected: "the result of an isolated run: " + firstLines(base[ai], 6)})
+					break
+				}
+			}
+		}
+		c.count("runs_with_another_run_nested_inside", int64(nested))
+	}
 	// results that are HELD while other texts are processed: a Spec handed out earlier must not change when the next
 	// specification is parsed (shared tables, recycled buffers, aliased slices)
 	{
